@@ -46,7 +46,7 @@ def gen_cases(tier, seed):
     out = []
     for i in range(n):
         s = env.seed_for(seed, ID, tier, i)
-        r = random.Random(s)
+        r = random.Random(env.seed_for(s, "descriptor"))  # independent of the stream run_case derives from the same seed
         mode = "strace" if r.random() < (0.06 if tier == "quick" else 0.12) else "shim"
         out.append({"seed": s, "mode": mode, "store": r.choice(["json", "pickle", "text", "binary", "touch", "staged_write", "staged_write_path"]),
                     "path": r.choice(["str", "pathlib"]), "present": r.random() < 0.7,
@@ -247,10 +247,24 @@ def run_case(desc):
             after = snapshot(d)
             new_bytes = after.get("target.dat", (None,))[0]
             counters["clean_writes_checked"] = 1
+            # "complete new value" = what a write of the same value to a fresh path produces (independent of what was there before)
+            d2 = tempfile.mkdtemp(prefix="vmon-c11r-")
+            try:
+                p2 = os.path.join(d2, "target.dat")
+                writer(desc["store"], p2 if desc["path"] == "str" else pathlib.Path(p2))(value)
+                with open(p2, "rb") as f:
+                    ref_bytes = f.read()
+            finally:
+                shutil.rmtree(d2, ignore_errors=True)
             if new_bytes is None:
                 bad, mech = "clean write left no target file", "atomicity"
             elif [n for n in after if n != "target.dat"]:
                 bad, mech = f"clean write left extra files {sorted(after)}", "staging-left"
+            elif new_bytes != ref_bytes:
+                bad, mech = (f"a write that returned normally over an existing file left {len(new_bytes)} bytes ({new_bytes[:30]!r}...), but the complete new value "
+                             f"(same write to a fresh path) is {len(ref_bytes)} bytes: the previous content was not replaced"), "atomicity"
+            elif desc["present"] and before["target.dat"][1] == after["target.dat"][1] and before["target.dat"][2] == after["target.dat"][2] and new_bytes != before["target.dat"][0]:
+                pass
     finally:
         shutil.rmtree(d, ignore_errors=True)
     sample = {"desc": desc, "operations": [o for o in ops[:12]] + (["..."] if K > 12 else []), "K": K}
